@@ -94,7 +94,7 @@ class Obj:
 
 
 class World:
-    __slots__ = ('mem', 'store', 'events', 'facts', 'written', 'names', 'dead')
+    __slots__ = ('mem', 'store', 'events', 'facts', 'written', 'names', 'dead', 'alias')
 
     def __init__(self):
         self.mem = {}
@@ -104,6 +104,7 @@ class World:
         self.written = frozenset()   # roots of byte objects that have been written
         self.names = {}              # root -> printable name
         self.dead = False
+        self.alias = {}              # (root, path) of a copy of an enum value -> Loc it was copied from (both unwritten since)
 
     def fork(self):
         w = World()
@@ -114,6 +115,7 @@ class World:
         w.written = self.written
         w.names = self.names      # shared, append-only
         w.dead = self.dead
+        w.alias = dict(self.alias) if self.alias else {}
         return w
 
     def event(self, ev):
